@@ -23,7 +23,17 @@ const FIELDS: [&str; 11] = [
 const LEVELS: [&str; 5] = ["runner", "benchmark", "group_inner", "group_mid", "group_outer"];
 
 /// The level-specific value of a field, as a comparable integer.
+/// 0: every level sets an ordinary value; 1 / 2: the odd / even levels set the field's *degenerate* value instead -
+/// an empty thread list, zero samples, a zero duration, a zero count, `false`: values that are set all the same and
+/// must win over an ordinary value further out (a test for "is it set" must look at the Option, not at the value).
+static MODE: std::sync::atomic::AtomicU8 = std::sync::atomic::AtomicU8::new(0);
+const EMPTY_LIST: u64 = u64::MAX;
+
 fn value(field: usize, level: usize) -> u64 {
+    let mode = MODE.load(std::sync::atomic::Ordering::Relaxed);
+    if mode != 0 && level % 2 == (mode as usize) % 2 {
+        return if field == 2 { EMPTY_LIST } else { 0 };
+    }
     match field {
         5 | 6 => (level % 2) as u64, // booleans: alternate so that neighbours differ
         _ => 10 * (field as u64 + 1) + level as u64 + 1,
@@ -34,7 +44,7 @@ fn set(o: &mut BenchOptions<'static>, field: usize, v: u64) {
     match field {
         0 => o.sample_count = Some(v as u32),
         1 => o.sample_size = Some(v as u32),
-        2 => o.threads = Some(Cow::Owned(vec![v as usize, 1])),
+        2 => o.threads = Some(Cow::Owned(if v == EMPTY_LIST { Vec::new() } else { vec![v as usize, 1] })),
         3 => o.min_time = Some(Duration::from_millis(v)),
         4 => o.max_time = Some(Duration::from_millis(v)),
         5 => o.skip_ext_time = Some(v == 1),
@@ -48,6 +58,9 @@ fn get(o: &BenchOptions<'static>, field: usize) -> Option<u64> {
         0 => o.sample_count.map(|v| v as u64),
         1 => o.sample_size.map(|v| v as u64),
         2 => o.threads.as_ref().map(|t| {
+            if t.is_empty() {
+                return EMPTY_LIST;
+            }
             assert_eq!(t.len(), 2);
             assert_eq!(t[1], 1);
             t[0] as u64
@@ -111,7 +124,7 @@ fn check_assignment(r: &Report, assignment: &[u16; 5]) {
                     winner.map_or("default (unset)", |l| LEVELS[l]),
                     assignment.iter().map(|m| (0..FIELDS.len()).filter(|f| m & (1 << f) != 0).map(|f| FIELDS[f]).collect::<Vec<_>>()).collect::<Vec<_>>()
                 ),
-                case: json!({"kind":"assignment","levels":assignment}),
+                case: json!({"kind":"assignment","levels":assignment,"mode":MODE.load(std::sync::atomic::Ordering::Relaxed)}),
             });
         }
     }
@@ -170,6 +183,7 @@ fn main() {
         match case["kind"].as_str().unwrap() {
             "assignment" => {
                 let l: Vec<u16> = case["levels"].as_array().unwrap().iter().map(|v| v.as_u64().unwrap() as u16).collect();
+                MODE.store(case["mode"].as_u64().unwrap_or(0) as u8, std::sync::atomic::Ordering::Relaxed);
                 check_assignment(&r, &[l[0], l[1], l[2], l[3], l[4]]);
             }
             "counters" => {
@@ -190,7 +204,9 @@ fn main() {
     let mut index = 0u64;
     // pairwise-exhaustive: every unordered pair of fields (incl. f = g: one field alone),
     // every {unset, set} pattern over the 5 levels for both
-    for f in 0..nf {
+    for mode in 0u8..3 {
+      MODE.store(mode, std::sync::atomic::Ordering::Relaxed);
+      for f in 0..nf {
         for g in f..nf {
             for pf in 0u16..32 {
                 for pg in 0u16..32 {
@@ -213,11 +229,13 @@ fn main() {
                     check_assignment(&r, &a);
                     r.case(5);
                     r.outcome(format!("{f}:{g}:{:?}", (0..5).find(|&l| a[l] & (1 << f) != 0)));
-                    r.sample(index, || json!({"fields": [FIELDS[f], FIELDS[g]], "levels_setting_first": pf, "levels_setting_second": pg}));
+                    r.sample(index, || json!({"fields": [FIELDS[f], FIELDS[g]], "levels_setting_first": pf, "levels_setting_second": pg, "degenerate_values_at": (["no level", "odd levels", "even levels"][mode as usize])}));
                 }
             }
         }
+      }
     }
+    MODE.store(0, std::sync::atomic::Ordering::Relaxed);
     // all fields at exactly one level, all fields everywhere, nothing anywhere,
     // each level complete with each other level complete (thorough: all subsets of levels complete)
     let full: u16 = (1 << nf) - 1;
@@ -289,7 +307,7 @@ fn main() {
     }
     r.set_bounds(json!({
         "fields": FIELDS, "levels": LEVELS, "pairwise": "every unordered field pair x every {unset,set}^5 pattern for both (1024 per pair) + single fields",
-        "complete_levels": "all 32 subsets of levels with every field set", "triples": if cli.thorough {"all field triples at all level triples"} else {"thorough only"},
+        "value_modes": "ordinary values at every level; degenerate values (empty thread list, 0 samples, zero duration, zero count, false) at the odd levels; at the even levels", "complete_levels": "all 32 subsets of levels with every field set", "triples": if cli.thorough {"all field triples at all level triples"} else {"thorough only"},
         "bencher_counter_sequences": 7, "inherited_patterns": 16, "thread_lists": "all lists of length <= 3 over {0,1,2,N_cpu}"
     }));
     r.emit();
